@@ -121,6 +121,9 @@ GradIsCurrent == [][phase = "forwarded" /\ phase' = "backpropped" =>
 (* omitting a reset never trains silently: a parameter that is not graded cannot be updated *)
 StaleIsAnError == [][\A p \in Params : (p \in done' \ done) /\ P[p].ctx # "graded" => last' = "error" /\ P' = P]_vars
 (* nothing leaks from one step into the next: gradients exist only between a live back-propagation and the update *)
+(* the value-free protocol machine, which recorded protocols of arbitrary real models are validated against *)
+Proto == INSTANCE TrainProto WITH ctx <- [p \in Params |-> P[p].ctx]
+RefinesProto == Proto!PSpec
 NoLeak == \A p \in Params : (P[p].grad # <<>>) <=> (P[p].ctx = "graded")
 ShapesKept == \A p \in Params : Len(P[p].val) = 1
 (* state constraint: the exact-rational model stays away from the kink of Relu (a pre-activation of exactly 0 leaves *)
